@@ -1,15 +1,15 @@
 """C09 — minimum path/walk covers cover everything with fewest routes; width equals it."""
-from contracts import c13, c09, stubs
+from contracts import c13, c09, stubs, enc
 
 LEVEL = "other"
 TRUSTED = [stubs.A_SOLVER]
 ASSUMPTIONS = [stubs.A_SOLVER, "A4 (not proved): width = minimum cover (Dilworth-type identity); a cover with at most |E|-|V|+2 routes exists"]
-EXPLANATION = ("Proved (PyVC, unbounded): the search loops of MinPathCover/MinPathCoverCycles start at the lower bound, reach a sufficient k, accept only proven optima, never skip an inconclusive k. "
+EXPLANATION = ("Proved (PyVC, unbounded): the cover ENCODERS kPathCover._encode_path_cover / kPathCoverCycles._encode_walk_cover add exactly one row per non-ignored edge, `some layer uses it`, for every assignment of the columns (no constraints given). Proved (PyVC, unbounded): the search loops of MinPathCover/MinPathCoverCycles start at the lower bound, reach a sufficient k, accept only proven optima, never skip an inconclusive k. "
                "NOT proved: width computation and minimality; decided by the BOUNDED stand-in against a brute-force minimum cover (rc/p_C09.py).")
 
 
 def units(tier):
-    return [u for u in c13.u_min_loops() if "C09" in u.props] + c09.all_units()
+    return [u for u in c13.u_min_loops() if "C09" in u.props] + c09.all_units() + [u for u in enc.all_units() if "C09" in u.props]
 
 
 def bounded(tier, seed):
